@@ -34,7 +34,10 @@ type TFld struct {
 	ID    int    `json:"id"`
 	Name  string `json:"name"`
 	Alias string `json:"alias"` // api.key annotation ("" = none)
-	Req   string `json:"req"`   // req | opt | def
+	// Later: a second key source (go.tag json name) declared behind the alias with another annotation in between; the first
+	// declared key stays the alias (IDL text only, not part of the model)
+	Later string `json:"later,omitempty"`
+	Req   string `json:"req"` // req | opt | def
 	Ty    TyX    `json:"ty"`
 	Dflt  DV     `json:"dflt"` // declared default value (k = "none": none)
 }
@@ -177,6 +180,9 @@ func (f *TFile) fldText(x TFld) string {
 	anno := ""
 	if x.Alias != "" {
 		anno = fmt.Sprintf(" (api.key = %q)", x.Alias)
+		if x.Later != "" {
+			anno = fmt.Sprintf(" (api.key = %q, api.query = %q, go.tag = %q)", x.Alias, "q_"+x.Name, `json:"`+x.Later+`"`)
+		}
 	}
 	dflt := ""
 	if x.Dflt.K != "" && x.Dflt.K != "none" {
@@ -781,6 +787,10 @@ func randTSch(r *rand.Rand) TSch {
 					if !usedFN[al] {
 						x.Alias = al
 						usedFN[al] = true
+						if lt := fmt.Sprintf("later_%d", id); r.Intn(3) == 0 && !usedFN[lt] {
+							x.Later = lt
+							usedFN[lt] = true
+						}
 					}
 				}
 				// a struct must not require itself
